@@ -7,7 +7,8 @@ SCHEMES = {
     'str': ['q0', 'q1', 'q2', 'q3'],
     'adv-merge': ['a', 'b', 'a;b', 'b;a'],            # names that look like merged subset names
     'adv-pair': ['a', 'b; c', 'a; b', 'c'],           # names that look like product-pair names
-    'adv-reserved': ['TrashNode', 'Empty', 'q', 'TRASH'],
+    'adv-reserved': ['TrashNode', "TrashNode'", 'q', "TrashNode''"],
+    'adv-reserved2': ['Empty', 'TRASH', 'TrashNode', 'q'],
     'adv-mixed': [1, '1', 2, '1;2'],
 }
 ADV = [k for k in SCHEMES if k.startswith('adv')]
@@ -29,6 +30,10 @@ def singles(tier, seed, exhaustive_scheme='str', n_random=2000, adv_share=0.25):
     for n in (1, 2):
         for R in S.enum_enfa(n, ['a'], eps=True):
             yield rename(R, exhaustive_scheme), exhaustive_scheme, f'exhaustive n={n} k=1'
+    # automata whose alphabet is empty (only epsilon moves): loops over the input symbols do not run at all
+    for n in (1, 2):
+        for R in S.enum_enfa(n, [], eps=True):
+            yield rename(R, exhaustive_scheme), exhaustive_scheme, f'exhaustive n={n} k=0 (epsilon moves only)'
     if tier == 'thorough':
         for R in S.enum_enfa(2, ['a', 'b'], eps=True):
             yield rename(R, 'str'), 'str', 'exhaustive n=2 k=2'
@@ -38,6 +43,7 @@ def singles(tier, seed, exhaustive_scheme='str', n_random=2000, adv_share=0.25):
         n = rng.choice([2, 3, 3, 3, 4]); k = rng.choice([1, 2, 2])
         R = S.random_enfa(rng, n, ['a', 'b'][:k], eps=rng.random() < 0.7, density=rng.choice([0.15, 0.25, 0.4]))
         scheme = rng.choice(ADV) if rng.random() < adv_share else rng.choice(['int', 'str'])
+        if rng.random() < 0.06: R = S.mk(R[0], [], R[2], R[3], [(p_, a_, q_) for p_, a_, q_ in R[4] if a_ is None])     # epsilon moves only
         yield rename(R, scheme), scheme, 'random'
 
 
